@@ -39,11 +39,11 @@ def pdu1_pf(rng):
 
 def gen(rng, k):
     sa = 0x20
-    dests = [255] + rng.sample([0x30, 0x31, 0x32], rng.randint(0, 2))
+    dests = [255] + rng.sample([0x30, 0x31, 0x32, 0x00], rng.randint(0, 3))       # (address 0 is an address like any other)
     stacks = [dict(dll='j1939-22', max_cmdt=3, subs=[dict(cid=1, filt=sa)], cas=[]),
               dict(dll='j1939-22', max_cmdt=3, subs=[dict(cid=10, filt=0x30), dict(cid=11, filt=None)],
                    cas=[dict(name=9, addr=0x31, bypass=True, subs=[12]), dict(name=8, addr=0x33, bypass=True, subs=[13])]),
-              dict(dll='j1939-22', max_cmdt=3, subs=[dict(cid=20, filt=0x32)], cas=[])]
+              dict(dll='j1939-22', max_cmdt=3, subs=[dict(cid=20, filt=0x32), dict(cid=21, filt=0x00)], cas=[])]
     script = []
     t = 1000
     from_timer = rng.random() < 0.3
